@@ -258,8 +258,9 @@ def tlc_trace(module, cfg_in, consts, trace, wdir, timeout=1800, extra_modules=(
     if rc == 124:
         raise ToolError(f"trace validation timed out ({module})")
     viol, drift, notes = [], [], []
-    for m in re.finditer(r'^<<"(VIOL|DRIFT|NOTE)", (.*)>>$', out, re.M):
-        fields = [x.strip().strip('"') for x in m.group(2).split(",")]
+    # TLC pretty-prints long tuples over several lines: match across newlines
+    for m in re.finditer(r'<<\s*"(VIOL|DRIFT|NOTE)",(.*?)>>', out, re.S):
+        fields = [x.strip().strip('"') for x in m.group(2).replace("\n", " ").split(",")]
         (viol if m.group(1) == "VIOL" else drift if m.group(1) == "DRIFT" else notes).append(fields)
     sm = re.search(r"(\d+) states generated, (\d+) distinct states found", out)
     accepted = "Model checking completed. No error has been found." in out
